@@ -491,7 +491,10 @@ def write_evidence(ctx, level, coverage, assumptions, violations):
         "wall_s": round(time.time() - ctx.t0, 2),
         "violations": violations,
     }
-    d = os.path.join(VERIF, "evidence")
+    # trials against another working tree (VERIF_REPO: mutants, seeded changes, fix candidates) must not overwrite the
+    # evidence of /repo itself
+    d = os.path.join(VERIF, "evidence") if repo_root() == "/repo" else os.path.join(
+        os.environ.get("TMPDIR", "/var/tmp"), "wverif-evidence-other", os.path.basename(repo_root()))
     os.makedirs(d, exist_ok=True)
     p = os.path.join(d, f"{ctx.prop}.json")
     tmp = p + ".tmp"
